@@ -7,6 +7,7 @@ Correspondence: the Lean adverb machines (`Klong.C02`, reference and implementat
 a logging monad) on the modelled verbs / operands: same result, same call sequence.
 """
 import itertools
+import signal
 import sys
 
 from . import common
@@ -219,6 +220,9 @@ class Budget(BaseException):
     pass
 
 
+WALL_LIMIT_S = 8.0
+
+
 def guarded(fn, limit=400000):
     """run fn() under a budget of profile events (Python and C calls; no wall clock):
     ('ok', value) / ('err', exception) / ('hang', None) when the budget is exceeded"""
@@ -231,6 +235,14 @@ def guarded(fn, limit=400000):
                 sys.setprofile(None)
                 raise Budget()
 
+    def on_alarm(signum, frame):
+        sys.setprofile(None)
+        raise Budget()
+
+    # (a verb that doubles its operand at every step spends its time inside a few huge copies, not in calls:
+    # a wall-clock limit next to the event budget, so that a loop that should have stopped cannot eat the machine)
+    old_handler = signal.signal(signal.SIGALRM, on_alarm)
+    signal.setitimer(signal.ITIMER_REAL, WALL_LIMIT_S)
     sys.setprofile(prof)
     try:
         v = fn()
@@ -246,6 +258,8 @@ def guarded(fn, limit=400000):
         return ("err", e)
     finally:
         sys.setprofile(None)
+        signal.setitimer(signal.ITIMER_REAL, 0)
+        signal.signal(signal.SIGALRM, old_handler)
 
 
 def mixed_numeric_array(v):
